@@ -31,7 +31,17 @@ func init() {
 	replayers["pipe"] = func(f []string) string { return runPipe(f[1:6]) }
 }
 
-const pipeTimeout = 30 * time.Second
+const pipeTimeout = 10 * time.Second
+
+// once two cases have timed out (a broken pipeline hangs every steered case) later cases give up quickly
+var pipeTimedOut int32
+
+func pipeCaseTimeout() time.Duration {
+	if atomic.LoadInt32(&pipeTimedOut) >= 2 {
+		return 300 * time.Millisecond
+	}
+	return pipeTimeout
+}
 
 func pipeFrame(i int) []byte {
 	l := 6 + i%5
@@ -268,7 +278,7 @@ func (c *pipeCase) run(n, rcvK int, reqs []*scan.Request, rng *rand.Rand, delaye
 	ctx, cancel := context.WithCancel(context.Background())
 	defer cancel() // only after everything ended (or timed out)
 	tmo := make(chan struct{})
-	defer time.AfterFunc(pipeTimeout, func() { close(tmo) }).Stop()
+	defer time.AfterFunc(pipeCaseTimeout(), func() { atomic.AddInt32(&pipeTimedOut, 1); close(tmo) }).Stop()
 
 	src := scan.NewPacketSource(c, scan.NewPacketMultiGenerator(c, n))
 	eng := scan.NewPacketEngine(src, packet.NewSender(c), c)
